@@ -257,8 +257,19 @@ def main():
     search = spec.search(ctx, extra_cases=[b['case'] for b in broken if b.get('case')], boost=budget_boost)
     new_fail = []
     seen_classes = set()
+    known_entries = [e for e in known if e.get('status') != 'fixed' and e['class'] in known_classes]
+
+    def is_known(f):
+        srcs = ''
+        if isinstance(f.get('case'), dict):
+            for c in f['case'].get('calls', []):
+                srcs += c.get('src', '') + '\n#opts:' + json.dumps({k: v for k, v in c.items() if k != 'src'}, sort_keys=True) + '\n'
+        for e in known_entries:
+            if e['class'] == f['class'] and (not e.get('source_re') or re.search(e['source_re'], srcs, re.S)):
+                return True
+        return False
     for f in search['failures']:
-        if f['class'] in known_classes:
+        if is_known(f):
             continue
         if f['class'] in seen_classes:
             continue
